@@ -8,7 +8,7 @@ CONSTANTS
   Ranks = {}
   NameKinds = {}
   NameLens = {}
-  MaxOps = 100
+  MaxOps = 7
   KeepHist = TRUE
 VIEW view
 CONSTRAINT Bound
